@@ -22,6 +22,94 @@ COLS = ["play_order", "length", "bpm", "year", "path", "filename", "bitrate", "b
         "loops", "third_party_source_id", "streaming_flags", "explicit_lyrics", "active_on_load_loops", "last_edit_time"]
 
 
+def table_scripts():
+    """Per-column scripts and error / whole-row scripts for harness/tabledriver (also used by C16's table-level pipeline)."""
+    # per-column scripts: every column written alone with present / absent / other values, rows before and after it
+    col_scripts = []
+    for c in COLS:
+        col_scripts.append([{"op": "t_add", "variant": 1, "mask": 0}, {"op": "t_add", "variant": 2, "mask": 1},
+                            {"op": "t_set", "h": 1, "col": c, "variant": 3, "mask": 0}, {"op": "t_set", "h": 2, "col": c, "variant": 1, "mask": 0},
+                            {"op": "t_set", "h": 1, "col": c, "variant": 2, "mask": 1}, {"op": "t_set", "h": 1, "col": c, "variant": 4, "mask": 2},
+                            {"op": "t_update", "h": 1, "variant": 3, "mask": 3}, {"op": "t_set", "id": 4242, "col": c, "variant": 1, "mask": 0}])
+    errors = [[{"op": "t_add", "variant": 1, "mask": 0}, {"op": "t_getcol", "id": 9999}, {"op": "t_remove", "id": 9999},
+               {"op": "t_update", "id": 9999, "variant": 2, "mask": 0}, {"op": "t_add", "variant": 2, "mask": 0, "with_id": True},
+               {"op": "t_remove", "h": 1}, {"op": "t_getcol", "id": 1}, {"op": "t_remove", "h": 1}, {"op": "t_update", "h": 1, "variant": 2, "mask": 0}],
+              [{"op": "t_add", "variant": v, "mask": m} for v in (1, 2, 3, 4, 5, 6) for m in (0, 1, 2, 3)],
+              [{"op": "pl_add", "title": "a"}, {"op": "pl_add", "title": "b", "parent": 1}, {"op": "pl_add", "title": "", "persisted": False}]]
+    return col_scripts, errors
+
+
+def table_cfg():
+    return vlib.cfg_text("TSpec", {}, postcondition="Accepted").replace("CONSTANTS\n", "")
+
+
+def build_table16(wd, mc_stats, tier, seed):
+    """Workloads for C16: the track_table read functions (get, exists, all_ids, 48 per-column getters) after every operation."""
+    import libcheck
+    col_scripts, errors = table_scripts()
+    r = random.Random(seed)
+    pick = col_scripts if tier != "quick" else r.sample(col_scripts, 12)
+    return [libcheck.Workload(s, pick + errors, [], tag="c", origin="per-column scripts") for s in vlib.V2]
+
+
+def build_pltable(wd, mc_stats, tier, seed):
+    """Workloads for harness/pltabledriver from every transition of MCV2Table; returns (workloads, trace cfg, stats, nscripts)."""
+    import libcheck
+    import paths
+    consts = {"ValidNames": {"a", "b"}, "InvalidNames": {"", "x;y"}, "Variant": "current", "MaxP": 3, "MaxE": 3, "Tracks": {1, 2},
+              "MaxOps": 4 if tier == "quick" else 5, "OpNames": {"a", "b", ""}}
+    cfg = vlib.cfg_text("MCSpec", consts, invariants=["ChainInv"], view="MCView", action_constraints=["Emit"])
+    rc, outp = vlib.run_tlc("MCV2Table", cfg, wd, "mcv2table", workers=8, timeout=1500, xmx="12g")
+    res = vlib.parse_tlc(outp)
+    if not res["ok"]:
+        raise vlib.ToolFailure("MCV2Table failed: %s (see %s)" % (res["errors"][:2] or res["fatal"], outp))
+    edges, stats = paths.read_edges(outp)
+    scripts = paths.scripts_from_edges(edges, conv=lambda a: dict(a))
+    mc_stats.append({"instance": "MCV2Table MaxP=3 MaxE=3 MaxOps=%d" % consts["MaxOps"], "states": stats.get("states") or 0,
+                     "transitions": stats.get("transitions") or 0, "scripts": len(scripts)})
+    r = random.Random(seed)
+    nmax = 1500 if tier == "quick" else len(scripts)
+    tcfg = vlib.cfg_text("TSpec", dict(consts, MaxOps=0), postcondition="Accepted")
+    ws = []
+    for s in vlib.V2:
+        pick = scripts if len(scripts) <= nmax else r.sample(scripts, nmax)
+        ws.append(libcheck.Workload(s, pick, [], tag="p", origin="mcv2table"))
+    return ws, tcfg, stats, len(scripts), consts
+
+
+def pltable_part(wd, tier, seed):
+    """Playlist / playlist-entity table API along every transition of MCV2Table; TraceV2Table validates outcome, raw rows and
+    every read function.  Returns (violations, coverage)."""
+    import libcheck
+    import paths
+    wd2 = os.path.join(wd, "pltable")
+    os.makedirs(wd2, exist_ok=True)
+    binary = vbuild.build_bin("pltabledriver", "plain", extra_src=["shim.cpp"])
+    ws, tcfg, stats, nscripts, consts = build_pltable(wd2, [], tier, seed)
+    shards, summary = libcheck.run_and_validate(binary, ws, wd2, module="TraceV2Table", cfg=tcfg)
+    violations = []
+    n = 0
+    for sh in shards:
+        for rej in sh["val"]["rejected"]:
+            n += 1
+            if len(violations) >= 5:
+                continue
+            payload = libcheck.confirm_rejection(binary, sh, rej, wd2, n, "TraceV2Table", tcfg)
+            if payload is None:
+                log("note: rejection in %s did not repeat on re-run; not reported" % sh["base"])
+                continue
+            rec = payload.get("offending_record") or {}
+            payload["offending_record"] = {k: rec.get(k) for k in ("op", "id", "title", "parent", "next", "list", "track", "entity", "out", "ex", "new")}
+            payload["reason"] = "playlist table API: " + str(payload.get("reason"))
+            violations.append(payload)
+        for ev in sh["events"]:
+            violations.append({"reason": "playlist table driver %s" % ev["kind"], "record": ev})
+    cov = {"playlist_tables": {"model_states": stats.get("states"), "model_transitions": stats.get("transitions"), "scripts": nscripts,
+                               "executions": summary["executions"], "accepted": summary["accepted"], "records": summary["records"],
+                               "bounds": "<= 3 playlists, <= 3 entities, 2 track ids, %d operations, titles {a, b, ''}" % consts["MaxOps"]}}
+    return violations, cov, summary["accepted"], (stats.get("states") or 0, stats.get("transitions") or 0)
+
+
 def check_C18(tier, seed):
     t0 = time.time()
     wd = vlib.workdir("C18_" + tier)
@@ -43,18 +131,7 @@ def check_C18(tier, seed):
             for line in fh:
                 if line.startswith('"OPS '):
                     seqs.append(json.loads(json.loads(line)[4:]))
-    # per-column scripts: every column written alone with present / absent / other values, rows before and after it
-    col_scripts = []
-    for c in COLS:
-        col_scripts.append([{"op": "t_add", "variant": 1, "mask": 0}, {"op": "t_add", "variant": 2, "mask": 1},
-                            {"op": "t_set", "h": 1, "col": c, "variant": 3, "mask": 0}, {"op": "t_set", "h": 2, "col": c, "variant": 1, "mask": 0},
-                            {"op": "t_set", "h": 1, "col": c, "variant": 2, "mask": 1}, {"op": "t_set", "h": 1, "col": c, "variant": 4, "mask": 2},
-                            {"op": "t_update", "h": 1, "variant": 3, "mask": 3}, {"op": "t_set", "id": 4242, "col": c, "variant": 1, "mask": 0}])
-    errors = [[{"op": "t_add", "variant": 1, "mask": 0}, {"op": "t_getcol", "id": 9999}, {"op": "t_remove", "id": 9999},
-               {"op": "t_update", "id": 9999, "variant": 2, "mask": 0}, {"op": "t_add", "variant": 2, "mask": 0, "with_id": True},
-               {"op": "t_remove", "h": 1}, {"op": "t_getcol", "id": 1}, {"op": "t_remove", "h": 1}, {"op": "t_update", "h": 1, "variant": 2, "mask": 0}],
-              [{"op": "t_add", "variant": v, "mask": m} for v in (1, 2, 3, 4, 5, 6) for m in (0, 1, 2, 3)],
-              [{"op": "pl_add", "title": "a"}, {"op": "pl_add", "title": "b", "parent": 1}, {"op": "pl_add", "title": "", "persisted": False}]]
+    col_scripts, errors = table_scripts()
     nseq = 500 if tier == "quick" else len(seqs)
     lines_by_schema = {}
     for s in vlib.V2:
@@ -94,7 +171,7 @@ def check_C18(tier, seed):
     for (s, o, ev) in runs:
         if ev:
             violations.append({"reason": "table driver died (rc=%s) on schema %s" % (ev["rc"], s), "record": ev})
-    cfgt = vlib.cfg_text("TSpec", {}, postcondition="Accepted").replace("CONSTANTS\n", "")
+    cfgt = table_cfg()
     import libcheck
 
     def val(x):
@@ -114,6 +191,11 @@ def check_C18(tier, seed):
             violations.append({"reason": rej["reason"], "schema": s,
                                "record": {k: rec.get(k) for k in ("op", "t", "col", "in", "out", "ex", "new")},
                                "history": [{k: h.get(k) for k in ("e", "op", "t", "col", "out", "ex", "new")} for h in hist]})
+    pv, pcov, pacc, (ps, pt) = pltable_part(wd, tier, seed)
+    violations += pv
+    accepted += pacc
+    mstates += ps
+    mtrans += pt
     cov = {"states": mstates, "transitions": mtrans, "traces_validated_against_impl": accepted, "executions": execs,
            "evaluations": recs, "distinct_nontrivial": len({json.dumps(x) for x in col_scripts + errors + seqs}),
            "rule": "for each of the seven 2.x schemas: (a) every one of the 48 columns is written alone (present value, another value, absent, "
@@ -124,6 +206,21 @@ def check_C18(tier, seed):
                    "TLC validates against TableApi.tla (RowOK, SetColOK, getters = row, errors for missing rows)",
            "samples": [col_scripts[10], errors[0]], "checker_cmd": "tlc MCTableApi.tla; tlc TraceTableApi.tla (POSTCONDITION Accepted)",
            "exhaustive": False}
+    cov.update(pcov)
+    import auxcheck
+    av, acov, aacc, (as_, at_) = auxcheck.aux_part(wd, tier, seed)
+    violations += av
+    cov.update(acov)
+    cov["traces_validated_against_impl"] += aacc
+    cov["states"] += as_
+    cov["transitions"] += at_
+    cov["rule"] += ("; playlist_table / playlist_entity_table: every transition of MCV2Table (add at every legal parent / next, update = rename / "
+                    "move to every legal parent / next, remove, add_back, remove, clear) is executed on all seven schemas and TLC (TraceV2Table) "
+                    "requires the outcome, the stored rows and every read function (all_ids, root_ids, child_ids, descendant_ids, get, exists, "
+                    "find_id / find_root_id, track_ids, get_for_list) to be what the storage-layer model V2Rows predicts; change_log_table / "
+                    "information_table: every transition of ChangeLog.tla (track writes that feed the log through the triggers, add, indicator "
+                    "update; ids live / removed / never handed out) plus seed-chosen longer sequences, TraceChangeLog requires outcome, stored "
+                    "rows and all / after(k) / last / get to be what ChangeLog!Apply predicts")
     return purechecks.finish("C18", tier, seed, "model_checking", cov, t0, violations, None, {},
                              ["time points are compared at whole-second resolution (a sub-second part may be dropped)",
                               "columns a schema version lacks (activeOnLoadLoops before 2.20.1, lastEditTime before 2.20.3) are unconstrained there",
